@@ -220,6 +220,7 @@ def run(case, out):
             exp_pres_rev = split(expected_order(docs, docnum, [(col, True)]), col)[0]
             exp_miss = sorted((d["k"] for d in docs if sort_value(col, d) is None), key=lambda k: docnum[k])
             where_seen = {}
+            asc_result = {}
             for f in (col, twin):
                 kind_f = "column" if f == col else "postings"
                 for direction, kwargs, want in (("asc", {"sortedby": f}, exp_pres),
@@ -235,7 +236,15 @@ def run(case, out):
                                  {"field": f, "got": got[:12], "missing_expected_in_doc_order": exp_miss[:8]})
                         return
                     where_seen[(direction, kind_f)] = where
+                    if direction == "rev":
+                        # a reversed sort must leave nothing behind: the ascending sort still gives what it gave
+                        again = keys_of(s.search(q, limit=None, sortedby=f))
+                        if again != asc_result.get(f):
+                            out.fail("c14.sort_changed_after_reversed_sort:%s" % kind_f,
+                                     {"field": f, "first": (asc_result.get(f) or [])[:12], "again": again[:12]})
+                            return
                     if direction == "asc":
+                        asc_result[f] = got
                         fwd = got
                         gotg = keys_of(s.search(q, limit=None, sortedby=f, reverse=True))
                         if gotg != list(reversed(fwd)):
@@ -318,7 +327,7 @@ def run(case, out):
                                                "kw": sorting.FieldFacet("kw", allow_overlap=True),
                                                "qf": sorting.QueryFacet({"hasw": query.Term("body", "w"),
                                                                          "hasu": query.Term("body", "u")}),
-                                               "rf": sorting.RangeFacet("nm", -5, 5, 3)})
+                                               "rf": sorting.RangeFacet("nm", -5, 4, 3)})
         k_of = dict((dn, k) for k, dn in docnum.items())
 
         def group_keys(name):
@@ -372,11 +381,11 @@ def run(case, out):
         rfg = {}
         for d in docs:
             v = d["nm"]
-            if v is None or not (-5 <= v < 7):  # buckets start at -5,-2,1,4; the last one is [4,7)
+            if v is None or not (-5 <= v < 4):  # buckets [-5,-2) [-2,1) [1,4): the end of the last one is excluded
                 gk = None
             else:
                 lo = -5 + ((v + 5) // 3) * 3
-                gk = (lo, lo + 3)  # hardend=False: the last range may extend past the end
+                gk = (lo, lo + 3)
             rfg.setdefault(gk, []).append(d["k"])
         if not check_partition("rf", rfg):
             return
